@@ -1,5 +1,7 @@
 mod cache;
 mod replay;
+mod scen;
+mod sim;
 
 use serde_json::{Value, json};
 
@@ -44,6 +46,43 @@ fn main() {
             };
             std::fs::write(&out, serde_json::to_string(&report).unwrap()).unwrap();
             let _ = json!(null);
+        }
+        // vh sim --scenarios <ndjson> --out <trace ndjson> [--start n]
+        "sim" => {
+            let scen_path = arg(&args, "--scenarios").expect("--scenarios");
+            let out = arg(&args, "--out").expect("--out");
+            let start: usize = arg(&args, "--start").and_then(|s| s.parse().ok()).unwrap_or(0);
+            let text = std::fs::read_to_string(&scen_path).expect("scenario file");
+            use std::io::Write;
+            let mut f = std::fs::OpenOptions::new().create(true).append(true).open(&out).unwrap();
+            let mut status = json!({"done": 0, "error": null});
+            for (n, line) in text.lines().enumerate() {
+                if n < start || line.trim().is_empty() {
+                    continue;
+                }
+                let sc: Value = serde_json::from_str(line).expect("scenario json");
+                let res = std::panic::catch_unwind(|| scen::run_scenario(&sc));
+                match res {
+                    Ok((log, err)) => {
+                        for e in &log {
+                            writeln!(f, "{}", serde_json::to_string(e).unwrap()).unwrap();
+                        }
+                        if let Some(e) = err {
+                            writeln!(f, "{}", json!({"ev": "SimError", "scenario": n, "err": e})).unwrap();
+                            status = json!({"done": n + 1, "error": e, "at": n});
+                            break;
+                        }
+                    }
+                    Err(p) => {
+                        let msg = p.downcast_ref::<String>().cloned().or_else(|| p.downcast_ref::<&str>().map(|s| s.to_string())).unwrap_or("panic".into());
+                        writeln!(f, "{}", json!({"ev": "SimError", "scenario": n, "err": format!("panic: {msg}")})).unwrap();
+                        status = json!({"done": n + 1, "error": format!("panic: {msg}"), "at": n});
+                        break;
+                    }
+                }
+                status["done"] = json!(n + 1);
+            }
+            println!("{}", status);
         }
         other => {
             eprintln!("unknown command {other}");
